@@ -62,7 +62,7 @@ M_SEQ_TR = 'sequence:transmission:degenerate-k==xsec'
 M_SEQ_EM = 'sequence:emission:degenerate-k==xsec'
 M_PARTS = 'transmission:parts:degenerate-k==xsec'
 REQUIRED = dict(monitors=[M_TR, M_TRT, M_EM, M_EMCF, M_WEXP, M_RANGE, M_JENSEN, M_EMTAU, M_JDEPTH, M_EMK, M_SEQ_TR, M_SEQ_EM, M_PARTS],
-                classes=['parts:molecule-of-several', 'ktable-container:hdf5', 'ktable-container:pickle', 'sequence:pressure-moved-by:array-refilled-in-place', 'sequence:pressure-moved-by:fitting-parameters', 'sequence:add:Rayleigh', 'sequence:set', 'sequence:rebuild', 'sequence:fault', 'sequence:fault-fired', 'family:transmission', 'family:emission', 'ngauss:1', 'ngauss:2-4', 'ngauss:5+',
+                classes=['parts:molecule-of-several', 'ktable-container:hdf5', 'ktable-container:pickle', 'sequence:pressure-moved-by:array-refilled-in-place', 'sequence:pressure-moved-by:fitting-parameters', 'sequence:add:Rayleigh', 'sequence:set', 'sequence:rebuild', 'sequence:fault', 'sequence:fault-fired', 'sequence:interpolation-mode-switched', 'family:transmission', 'family:emission', 'ngauss:1', 'ngauss:2-4', 'ngauss:5+',
                          'weights:dirichlet', 'weights:gauss-legendre', 'weights:uniform',
                          'magnitude:transparent', 'magnitude:thin', 'magnitude:mixed', 'magnitude:saturating',
                          'molecules:1', 'molecules:2+', 'interp:linear', 'interp:exp', 'k:degenerate',
@@ -313,6 +313,12 @@ def run(ctx, spec, family, mode, xd, kd, given_deltaz=False, steps=None, parts=F
                 # caller's own array of layer pressures in place
                 how = world.move_pressure_range(model, spec['pmax'] * st['fmax'], spec['pmin'] * st['fmin'])
                 ctx.observe('sequence:pressure-moved-by:' + how)
+            elif st['op'] == 'interpolation':
+                # the documented global option is changed while the model lives: both caches are emptied and the tables
+                # are read again from their files, cross-sections and k-tables alike, in the new mode
+                cur = g['xsec_interpolation']
+                OpacityCache().set_interpolation('linear' if cur == 'exp' else 'exp')
+                ctx.observe('sequence:interpolation-mode-switched')
             elif st['op'] == 'rebuild':
                 model.build()
             elif st['op'] == 'fault':
@@ -613,9 +619,13 @@ def wl_sequence(ctx, rng):
     ktabs = {m: np.repeat(t['xsec'][..., None], ng, axis=-1) for m, t in spec['tables'].items()}
     have = [c if isinstance(c, str) else c['name'] for c in spec['contributions']]
     steps = []
+    no_zero = all(float(np.min(t['xsec'])) > 0.0 for t in spec['tables'].values())
     for _ in range(int(rng.integers(2, 5))):
-        k = rng.integers(0, 5)
-        if k == 4:
+        k = rng.integers(0, 6)
+        if k == 5:
+            if no_zero:                       # (a table with exact zeros is outside the 'exp' formula's domain)
+                steps.append({'op': 'interpolation'})
+        elif k == 4:
             if spec['temperature']['kind'] == 'npoint':
                 continue                      # N-point nodes are tied to the pressure range
             steps.append({'op': 'pressure', 'fmax': float(10 ** rng.uniform(-0.3, 0.3)), 'fmin': float(10 ** rng.uniform(-0.3, 0.3))})
